@@ -218,7 +218,7 @@ func runC16(c *Ctx, r *Report, tier string) {
 	}, notHidden, litIs("call:(*Option).canArgument(P2)", true), litIs("nonempty(Option.Choices(P2))", true))
 	part("description block REQ(description present)", c.isCallTo("wrapText"), notHidden, litIs("nonempty(Option.Description(P2))", true))
 	// argument rows
-	for _, b := range wh.Blocks {
+	for _, b := range c.blocks(wh) {
 		for _, in := range b.Instrs {
 			call, ok := in.(*ssa.Call)
 			if !ok || c.calleeName(call.Common()) != "append" || relType(c, call.Type()) != "[]*Arg" {
@@ -273,7 +273,7 @@ func runC16(c *Ctx, r *Report, tier string) {
 		if !scopeFiles[c.fname(fn)] && !strings.HasPrefix(c.fname(fn), "writeManPageOptions$") {
 			continue
 		}
-		for _, b := range fn.Blocks {
+		for _, b := range c.blocks(fn) {
 			for _, in := range b.Instrs {
 				u, ok := in.(*ssa.UnOp)
 				if !ok || !strings.HasPrefix(c.term(u), "Command.commands(") {
@@ -302,7 +302,7 @@ func runC16(c *Ctx, r *Report, tier string) {
 			_ = in
 		}
 		r.Check(nSrc >= 1, "COMMANDS", c.fname(fn), "command lists come from sortedVisibleCommands", c.pos(fn.Pos()), fmt.Sprintf("%d calls", nSrc), "no call to sortedVisibleCommands")
-		for _, b := range fn.Blocks {
+		for _, b := range c.blocks(fn) {
 			for _, in := range b.Instrs {
 				ia, ok := in.(*ssa.IndexAddr)
 				if !ok || typeName(ia.X.Type()) == "" {
@@ -316,7 +316,7 @@ func runC16(c *Ctx, r *Report, tier string) {
 			}
 		}
 	}
-	for _, b := range wh.Blocks {
+	for _, b := range c.blocks(wh) {
 		if iff, ok := b.Instrs[len(b.Instrs)-1].(*ssa.If); ok {
 			l := c.cond(iff.Cond)
 			if strings.HasPrefix(l.Term, "lt(3, len(") {
@@ -328,7 +328,7 @@ func runC16(c *Ctx, r *Report, tier string) {
 	// ---- ATTR
 	reaches := func(fn *ssa.Function, sub string) bool {
 		found := false
-		for _, b := range fn.Blocks {
+		for _, b := range c.blocks(fn) {
 			for _, in := range b.Instrs {
 				call, ok := in.(*ssa.Call)
 				if !ok {
@@ -388,7 +388,7 @@ func runC16(c *Ctx, r *Report, tier string) {
 	}
 	// help: the literal flows into `def` phi; every edge carrying defaultLiteral requires an empty mask
 	nM := 0
-	for _, b := range who.Blocks {
+	for _, b := range c.blocks(who) {
 		for _, in := range b.Instrs {
 			p, ok := in.(*ssa.Phi)
 			if !ok {
@@ -436,7 +436,7 @@ func runC16(c *Ctx, r *Report, tier string) {
 
 	// ---- DEEPEST
 	var walkLoop *Loop
-	for _, l := range loopsOf(wh) {
+	for _, l := range c.loopsDeep(wh) {
 		iff, isIf := l.Header.Instrs[len(l.Header.Instrs)-1].(*ssa.If)
 		if !isIf {
 			continue
